@@ -278,6 +278,7 @@ def UB.adaptiveChoices (n : Int) (it : Iter) : List Int := (calcIdx n.toNat it).
 
 /-! ## doPartition's validation of the pick -/
 
+
 /-- `if pick < 0 || pick >= len(mapping) { promiseRecord(pr, "invalid record partitioning choice …"); return }` -/
 def doPartitionRejects (pick : Int) (len : Nat) : Bool := decide (pick < 0) || decide (pick ≥ (len : Int))
 
@@ -330,6 +331,50 @@ def PKind.onNewBatch (k : PKind) (s : PState) : PState :=
   | .stickyKey _, .st s => .st s.onNewBatch
   | .leastBackup, .lb s => .lb s.onNewBatch
   | _, s => s
+
+/-! ## trace acceptance (driver only): is pick `p` possible for *some* draw?
+
+Used for runs with the partitioner's own time-seeded `rand.Rand` and for the adaptive (float) branch of
+uniform bytes, where the pick cannot be predicted; returns the successor state when `p` is possible. -/
+
+def Sticky.accept (s : Sticky) (n p : Int) : Option Sticky :=
+  if s.onPart = -1 ∨ s.onPart ≥ n then
+    -- some d in [0,n) with (if d = lastPart then (d+1) % n else d) = p
+    if 0 ≤ p ∧ p < n ∧ (p ≠ s.lastPart ∨ n = 1) then some { s with onPart := p } else none
+  else if p = s.onPart then some s else none
+
+/-- indices (as `Next` reports them) of the partitions with the fewest buffered records. -/
+def argmins (mapping : List Int) : List Int :=
+  match mapping.min? with
+  | none => []
+  | some m => ((List.range mapping.length).filter (fun i => mapping.getD i 0 == m)).map (fun (i : Nat) => (i : Int))
+
+def LB.accept (s : LB) (n : Int) (mapping : List Int) (p : Int) : Option LB :=
+  if s.onPart = -1 ∨ s.onPart ≥ n then
+    if (argmins (mapping.take n.toNat)).contains p ∧ mapping.length = n.toNat then some { onPart := p } else none
+  else if p = s.onPart then some s else none
+
+def UB.accept (c : UBCfg) (s : UB) (r : Rec) (n : Int) (mapping : List Int) (p : Int) : Option UB :=
+  match (if c.keys then r.key else none) with
+  | some k => if c.hasher k n = some p then some s else none
+  | none =>
+    let l := r.estimate
+    let bytes := s.bytes + l
+    let s1 : UB := if bytes ≥ c.limit then { bytes := l, onPart := -1 } else { bytes := bytes, onPart := s.onPart }
+    if 0 ≤ s1.onPart ∧ s1.onPart < n then (if p = s1.onPart then some s1 else none)
+    else if 0 ≤ p ∧ p < n ∧ mapping.length = n.toNat then some { bytes := s1.bytes, onPart := p } else none
+
+def PKind.acceptN (k : PKind) (s : PState) (r : Rec) (n : Int) (mapping : List Int) (p : Int) : Option PState :=
+  match k, s with
+  | .roundRobin, .rr s => match s.partition n with | .ok s q => if p = q then some (.rr s) else none | .panic => none
+  | .sticky, .st s => (s.accept n p).map .st
+  | .stickyKey h, .st s =>
+    match r.key with
+    | some key => if h key n = some p then some (.st s) else none
+    | none => (s.accept n p).map .st
+  | .leastBackup, .lb s => (s.accept n mapping p).map .lb
+  | .uniformBytes c, .ub s => (s.accept c r n mapping p).map .ub
+  | _, _ => none
 
 def PKind.usesBackup : PKind → Bool
   | .leastBackup => true
